@@ -52,6 +52,7 @@ class MDoc(object):
         self.id = id; self.mimetype = mimetype; self.hs = hs
         self.regs = []        # (href, 'F'|'I', filename(str)|bytes, mediatype) in registration order
         self.thumb = None
+        self.thumb_mt = u''   # the _thumbnail_mediatype attribute load() sets (u'' when absent)
         self.extras = []      # (filename, mediatype, bytes|None)
         self.folder = folder
         self.kids = []
@@ -64,7 +65,7 @@ class MDoc(object):
         t = ['D', str(self.id), enc_str(self.mimetype), '1' if self.hs else '0', str(len(self.regs))]
         for href, k, data, mt in self.regs:
             t += [enc_str(href), k, enc_str(data) if k == 'F' else enc_bytes(data), enc_str(mt)]
-        t += [enc_bytes(self.thumb), str(len(self.extras))]
+        t += [enc_bytes(self.thumb), enc_str(self.thumb_mt if self.thumb is not None else u''), str(len(self.extras))]
         for fn, mt, c in self.extras:
             t += [enc_str(fn), enc_str(mt), enc_bytes(c)]
         t += [enc_str(self.folder), str(len(self.kids))]
@@ -95,7 +96,7 @@ def parse_doc(tok, i=0):
         href = dec_str(tok[i]); k = tok[i + 1]
         data = dec_str(tok[i + 2]) if k == 'F' else dec_bytes(tok[i + 2])
         m.regs.append((href, k, data, dec_str(tok[i + 3]))); i += 4
-    m.thumb = dec_bytes(tok[i]); n = int(tok[i + 1]); i += 2
+    m.thumb = dec_bytes(tok[i]); m.thumb_mt = dec_str(tok[i + 1]); n = int(tok[i + 2]); i += 3
     for _ in range(n):
         m.extras.append((dec_str(tok[i]), dec_str(tok[i + 1]), dec_bytes(tok[i + 2]))); i += 3
     m.folder = dec_str(tok[i]); n = int(tok[i + 1]); i += 2
@@ -147,6 +148,7 @@ def dump_real(doc, id=0):
     for href, (kind, data, mt) in doc.Pictures.items():
         m.regs.append((href, 'F' if kind == 0 else 'I', data, mt))
     m.thumb = doc.thumbnail
+    m.thumb_mt = getattr(doc, '_thumbnail_mediatype', u'')
     for op in doc._extra:
         m.extras.append((op.filename, op.mediatype, op.content))
     for i, c in enumerate(doc.childobjects):
